@@ -841,6 +841,10 @@ def configs(name, thorough=False):
                     variants = [variants[(ml + hl) % len(variants)]] + ([variants[0]] if (ml, hl) in ((17, 21), (0, 0)) else [])
                 for nonce, tlen in variants:
                     out.append(dict(key=key, nonce=nonce, header=pat(hl, 0x30), msg=pat(ml, 0x90), tlen=tlen, how=how))
+    if name == "ccm":
+        # SP 800-38C A.2.2: the length of the associated data is encoded on 2 bytes below 2^16 - 2^8, on 0xFFFE + 4 bytes from there
+        for hl in (65279, 65280, 65535, 65536) if thorough else (65279, 65280, 65536):
+            out.append(dict(key=pat(16, 0x41), nonce=pat(12, 5), header=pat(hl, 0x30), msg=pat(5, 0x90), tlen=8, how="one"))
     return out
 
 
